@@ -1118,6 +1118,9 @@ class Translator:
         if spec.get("mode") == "ctx":
             from . import ctx2lean
             return ctx2lean.translate(self, name, spec, fn)
+        if spec.get("mode") == "conv":
+            from . import conv2lean
+            return conv2lean.translate(self, name, spec, fn)
         if spec.get("mode") == "state":
             from . import state2lean
             return state2lean.translate(self, name, spec, fn)
